@@ -7,6 +7,7 @@ ROOT = os.path.dirname(os.path.dirname(os.path.abspath(__file__)))
 sys.path.insert(0, ROOT)
 
 DECODE = {'C02', 'C03', 'C04', 'C06', 'C07', 'C08', 'C09', 'C10'}
+DECODE_PLUS = {'C01'}
 
 
 def main():
@@ -21,6 +22,12 @@ def main():
     if a.prop in DECODE:
         from checks import decode_driver
         decode_driver.main(a.prop, a.tier)
+    elif a.prop in ('C12', 'C13', 'C14', 'C15'):
+        from checks import tracker_driver
+        tracker_driver.main(a.prop, a.tier)
+    elif a.prop == 'C01':
+        from checks import c01
+        c01.main(a.tier)
     else:
         mod = __import__('checks.%s' % a.prop.lower(), fromlist=['main'])
         mod.main(a.tier)
